@@ -134,6 +134,18 @@ class World(WsWorld):
         # judged in CLOSING state (safety half only, see final())
         self.local_close_planned = (not sweep) and ch.flag("local-close", 0.15)
         self.local_closed = False
+        # the application may echo every message with a synched write: its octets sit in the endpoint's send queue
+        # (drained by 10 us timers) when later frames - and the violation - are processed
+        self.echo_sync = False
+        if (not sweep) and ch.flag("echo-sync", 0.12):
+            self.echo_sync = True
+            def echo(payload, is_binary, e=e):
+                try:
+                    e.p.sendMessage(payload, is_binary, sync=True)
+                    self.run.probe("echoed-with-synched-write")
+                except Exception as ex:  # noqa
+                    self.run.log("echo-raised", type(ex).__name__)
+            e.hooks["on_message"] = echo
 
     # --- stream generation ---------------------------------------------------------------------------
     def mask(self):
@@ -432,6 +444,18 @@ class World(WsWorld):
         # ping-answered: pongs on the wire == pings of the well-formed prefix, in order, same payload.
         exp_pongs = [d[1] for d in exp if d[0] == "ping"]
         got_pongs = [pl for op, pl in m.controls if op == 10]
+        # with synched echoes, pongs and the failure/reply close frame queue up behind the echoes (drained by 10 us
+        # timers): if the peer drops TCP first they are legitimately never written - then only "no wrong pong,
+        # no second close frame" remains
+        lossy = self.echo_sync and (self.peer.closed or ((ref.violation is not None or ref.violation_either) and self.cfg["failByDrop"]))
+        if lossy:
+            run.probe("peer-dropped-while-send-queue-draining")
+            if got_pongs != exp_pongs[:len(got_pongs)]:
+                run.violate(self.P + ".ping-answered", "pong-missing-or-wrong", "pongs %r for pings %r (send queue cut)" % (
+                    [p[:8] for p in got_pongs], [p[:8] for p in exp_pongs]))
+            if m.close_count > 1:
+                run.violate(self.P + ".fail-policy", "close-frames:%d:send-queue-cut" % m.close_count, "")
+            return
         if ref.violation is None and not ref.incomplete or True:
             # pings of the prefix arrive while the connection is open, so each must be answered
             if got_pongs[:len(exp_pongs)] != exp_pongs:
@@ -490,7 +514,8 @@ class World(WsWorld):
         if got_pongs != exp_pongs[:len(got_pongs)]:
             run.violate(self.P + ".ping-answered", "pong-missing-or-wrong", "pongs %r for pings %r (local close in flight)" % (
                 [p[:8] for p in got_pongs], [p[:8] for p in exp_pongs]))
-        if m.close_count != 1:
+        if m.close_count != 1 and not (self.echo_sync and m.close_count == 0):
+            # (with synched echoes our close frame may still sit in the send queue when the connection is aborted)
             run.violate(self.P + ".fail-policy", "close-frames:%d:local-close-in-flight" % m.close_count, repr(ref.violation))
         if ref.violation is not None:
             run.probe("violation-during-local-close:" + ref.violation[0])
